@@ -51,6 +51,7 @@ Profile GetProfile(const std::string& name, bool thorough) {
     p.gen.features |= F_POOLS | F_CONSOLE;
   } else if (name == "C07") {
     p.pm_interrupt = 350; p.pm_crash = 300; p.pm_torn = 150; p.pm_cmd_fail = 30;
+    p.multi_process_cmds = true;
     p.enumerate_faults = thorough;
   } else if (name == "C16") {
     p.pm_cmd_fail = 150; p.gen.features |= F_RSP | F_HOSTILE_NAMES;
